@@ -185,7 +185,7 @@ namespace GeographicLib {
             atanhes = asinh(_e * tphi / scbeta), // atanh(e * sphi)
             t1 = (atanhs - _e * atanhes)/2,
             t2 = asinh(em1 * (tphi * scphibeta)) / em1,
-            Dg = cosh((atanhs + _e * atanhes)/2) * (sinh(t1) / t1)
+            Dg = cosh((atanhs + _e * atanhes)/2) * (t1 != 0 ? sinh(t1) / t1 : 1)
             * ((atanhs + atanhes)/2 + (1 + _e)/2 * t2);
           tphimsig = em1 * Dg;  // tphi - sig
         }
